@@ -13,6 +13,10 @@ CONSTANTS N, E, EmitOn
 VARIABLE toks
 K == Kinds(E) \cup {"bad"}
 
+\* focused sub-alphabets (configuration: K <- KArgs): longer sequences over fewer kinds - calls with the placeholder and literals
+\* in every argument position, nested once
+KArgs == Kinds(E) \cap {"ans", "num", "f1", "f2", "fv", "fa", "lp", "rp", "comma", "sub"}
+
 Init == toks = <<>>
 Next == /\ Len(toks) < N /\ Viable(toks) /\ \E k \in K : toks' = Append(toks, k)
 
